@@ -154,6 +154,102 @@ theorem c06_unanimous_permit_is_permit (cfg : Cfg) (voters : List Voter) (hne : 
       rw [hlen] at this; exact this
   exact ⟨hr, (c06_permit_iff_reached cfg voters).mpr hr⟩
 
+/-- The same with idle voters present: nobody blocks - every voter permits, abstains, defers or fails - at least
+    one permit and at least `min_voters` permits.  For every strategy but the count strategy (where idle members
+    enlarge the colony the count is a share of; see the next theorem) the ballot is PERMIT under the same reading
+    (`Attainable`, `Supported`). -/
+theorem c06_unanimous_permit_with_idle_voters (cfg : Cfg) (voters : List Voter) (hs : cfg.strategy ≠ .threshold)
+    (hnb : ∀ v ∈ voters, (toVote v).kind ≠ .block) (hp : 0 < nP (collect voters))
+    (hn : cfg.minVoters ≤ nP (collect voters)) (hv : ∀ v ∈ voters, v.Valid)
+    (ha : Attainable cfg voters.length) (hsup : Supported cfg (collect voters)) :
+    (runVote cfg voters).reached = true ∧ (runVote cfg voters).decision = .permit := by
+  -- the voters who cast a permit or block vote: all of them permit
+  have hc : collect (voters.filter fun v => (toVote v).active) = (collect voters).filter Vote.active := by
+    unfold collect; rw [List.filter_map]; rfl
+  have c1 : nP ((collect voters).filter Vote.active) = nP (collect voters) := by
+    unfold nP; rw [ofKind_filter_active _ (Or.inl rfl)]
+  have hallA : ∀ v ∈ voters.filter (fun v => (toVote v).active), (toVote v).kind = .permit := by
+    intro v hm
+    obtain ⟨h1, h2⟩ := List.mem_filter.mp hm
+    have h3 := hnb v h1
+    simp only [Vote.active, Bool.or_eq_true, decide_eq_true_eq] at h2
+    rcases h2 with h2 | h2
+    · exact h2
+    · exact absurd h2 h3
+  have hlenA : (voters.filter fun v => (toVote v).active).length = nP (collect voters) := by
+    rw [← collect_length, hc, ← c1]
+    exact (nP_of_all_permit (vs := (collect voters).filter Vote.active) (by
+      intro x hx
+      rw [← hc] at hx
+      unfold collect at hx
+      obtain ⟨v, hv', rfl⟩ := List.mem_map.mp hx
+      exact hallA v hv')).symm
+  have hneA : (voters.filter fun v => (toVote v).active) ≠ [] := by
+    intro h; rw [h] at hlenA; simp at hlenA; omega
+  have hresA := c06_unanimous_permit_is_permit cfg _ hneA hallA (by rw [hlenA]; exact hn)
+    (fun v hm => hv v (List.mem_filter.mp hm).1) (attainable_indep cfg hs _ _ ha)
+    (by rw [hc]; exact supported_filter cfg _ hsup)
+  have hsr := ((run_reached_iff cfg _).mp hresA.1).2
+  have hl : (voters.filter fun v => (toVote v).active).length = ((collect voters).filter Vote.active).length := by
+    rw [← hc, collect_length]
+  rw [hc, hl] at hsr
+  have hfull : StratReached cfg voters.length (collect voters) := stratReached_add_idle cfg hs _ _ hsr
+  have hr : (runVote cfg voters).reached = true := by
+    rw [run_reached_iff]; exact ⟨by omega, hfull⟩
+  exact ⟨hr, (c06_permit_iff_reached cfg voters).mpr hr⟩
+
+/-- … and for the count strategy, where the criterion is a number of permits out of the whole colony: whenever the
+    permits meet it (`CountMet`: the custom count, or the share of the colony - idle members included - or by default
+    more than half of the colony) and `min_voters` voters were active, the ballot is PERMIT, whoever else is idle. -/
+theorem c06_count_strategy_permits_when_count_met (cfg : Cfg) (voters : List Voter) (hs : cfg.strategy = .threshold)
+    (ht : NonNegThreshold cfg) (hn : cfg.minVoters ≤ nP (collect voters) + nB (collect voters))
+    (hc : CountMet cfg voters.length (nP (collect voters))) :
+    (runVote cfg voters).reached = true ∧ (runVote cfg voters).decision = .permit := by
+  have hr : (runVote cfg voters).reached = true := by
+    rw [run_reached_iff]
+    refine ⟨hn, ?_⟩
+    unfold StratReached; simp only [hs]
+    exact (thresholdCount_le_iff cfg ht _ _).mpr hc
+  exact ⟨hr, (c06_permit_iff_reached cfg voters).mpr hr⟩
+
+/-- BAYESIAN beyond the ½ prior: when nobody blocks and one permit vote carries evidence
+    `likGain · confidence · weight ≥ x` for some `x ∈ (0, ½]` (a unit-weight, fully confident permit: x = 0.4), every
+    threshold below `½ + x` is exceeded - so e.g. any number of confident unit-weight permits (and any idle voters)
+    is PERMIT for every threshold below 0.9, not only for thresholds up to the ½ that `Attainable` admits. -/
+theorem c06_bayesian_confident_unanimity (cfg : Cfg) (voters : List Voter) (hs : cfg.strategy = .bayesian)
+    (hnb : ∀ v ∈ voters, (toVote v).kind ≠ .block) (hv : ∀ v ∈ voters, v.Valid)
+    (x : Rat) (hx0 : 0 < x) (hx : x ≤ 1 / 2)
+    (hstrong : ∃ v ∈ voters, (toVote v).kind = .permit ∧ x ≤ likGain * ((toVote v).conf * (toVote v).weight))
+    (ht : effThreshold cfg.custom majorityThreshold < 1 / 2 + x)
+    (hn : cfg.minVoters ≤ nP (collect voters)) :
+    (runVote cfg voters).reached = true ∧ (runVote cfg voters).decision = .permit := by
+  have hnb' : ∀ x ∈ collect voters, x.kind ≠ .block := by
+    intro y hy; unfold collect at hy
+    obtain ⟨v, h1, rfl⟩ := List.mem_map.mp hy; exact hnb v h1
+  have hs' : ∃ y ∈ collect voters, y.kind = .permit ∧ x ≤ likGain * (y.conf * y.weight) := by
+    obtain ⟨v, h1, h2, h3⟩ := hstrong
+    exact ⟨toVote v, by unfold collect; exact List.mem_map.mpr ⟨v, h1, rfl⟩, h2, h3⟩
+  have hsr := bayes_reached_of_strong cfg hs voters.length hnb' (collect_valid hv) hx0 hx hs' ht
+  have hr : (runVote cfg voters).reached = true := by
+    rw [run_reached_iff]; exact ⟨by omega, hsr⟩
+  exact ⟨hr, (c06_permit_iff_reached cfg voters).mpr hr⟩
+
+/-- the three theorems apply: three permits and a failed voter under SUPERMAJORITY with `min_voters = 3`; two
+    confident permits and an abstainer under BAYESIAN with threshold ¾ (beyond `Attainable`); two permits, two idle
+    members under the default count strategy are NOT enough (2 of 4 is no strict majority of the colony) while three
+    permits are -/
+example : (runVote ⟨.supermajority, none, 3⟩ [voterOf .permit 1 1, voterOf .execute 1 1, voterOf .raises 2 1, voterOf .permit 1 1]).decision = .permit ∧
+    (runVote ⟨.bayesian, some (3 / 4), 1⟩ [voterOf .permit 1 1, voterOf .other 1 1, voterOf .permit 1 1]).decision = .permit ∧
+    (runVote ⟨.threshold, none, 1⟩ [voterOf .permit 1 1, voterOf .permit 1 1, voterOf .other 1 1, voterOf .defer 1 1]).decision = .block ∧
+    (runVote ⟨.threshold, none, 1⟩ [voterOf .permit 1 1, voterOf .permit 1 1, voterOf .permit 1 1, voterOf .defer 1 1]).decision = .permit := by
+  decide +kernel
+
+example : (runVote ⟨.bayesian, some (3 / 4), 1⟩ [voterOf .permit 1 1, voterOf .other 1 1, voterOf .permit 1 1]).decision = .permit :=
+  (c06_bayesian_confident_unanimity ⟨.bayesian, some (3 / 4), 1⟩ _ rfl (by decide +kernel)
+    (by intro v hv; simp at hv; rcases hv with rfl | rfl | rfl <;> exact voterOf_valid (by decide +kernel) (by decide +kernel))
+    (2 / 5) (by decide +kernel) (by decide +kernel)
+    ⟨voterOf .permit 1 1, by simp, by decide +kernel, by decide +kernel⟩ (by decide +kernel) (by decide +kernel)).2
+
 /-! ### Monotonicity -/
 
 /-- General form: make any number of voters more favourable at once (each one unchanged, or its block turned into
